@@ -193,6 +193,23 @@ ScaleEquivariantAt(A, v, c) ==
        /\ \A j \in 1..Len(xa.h):
              /\ Len(xs.h[j]) = Len(xa.h[j])
              /\ \A i \in 1..Len(xa.h[j]): QEq(xs.h[j][i], QMul(c, xa.h[j][i]))
+\* Start-vector invariance.  The factorisation depends on the start vector only through its DIRECTION: q_1 = v/||v||
+\* is the only place where v enters, so for every c > 0 the process of (A, c v) is the process of (A, v) - same
+\* basis, same H, same breakdown step, whatever the size of ||c v|| (1e-13 times a residual, 1e8 times a unit
+\* vector).  Likewise the NUMBER TYPE in which v is handed over is immaterial: a real (integer, single precision)
+\* vector is the complex (double precision) vector with the same entries - in this model start vectors are
+\* Gaussian rationals from the outset, so promotion to the operator's field is the identity - and the
+\* factorisation lives in the operator's type.  Checked as an invariant on the exact catalog with dyadic c
+\* (MC_Krylov!StartScaleInvariant).
+StartScaleInvariantAt(A, v, c) ==
+    LET xa == ExactArnoldi(A, v)
+        xs == ExactArnoldi(A, MScale(c, v))
+    IN /\ xs.rational = xa.rational
+       /\ Len(xs.q) = Len(xa.q) /\ Len(xs.h) = Len(xa.h)
+       /\ \A j \in 1..Len(xa.q): MEq(xs.q[j], xa.q[j])
+       /\ \A j \in 1..Len(xa.h):
+             /\ Len(xs.h[j]) = Len(xa.h[j])
+             /\ \A i \in 1..Len(xa.h[j]): QEq(xs.h[j][i], xa.h[j][i])
 \* export: columns of Q as [e (numerators), d], columns of H as sequences of [n, d]
 ExactExport(A, v) ==
     LET xa == ExactArnoldi(A, v)
